@@ -16,13 +16,13 @@ LEVEL = 'exploration'
 RULE = ('Engine A: (a) frames over G x T in {2x2, 3x2, 2x3 | + 3x3} with EVERY present/absent pattern of the G*T cells '
         '(distinct integer values, plus a tied-means variant), ID dtype int/str (+ object column of ints, mixed int/str object column, float, categorical), 3 row orders, no eligibility; (b) 3-geo '
         'frames with EVERY eligibility table over {absent + 7 row types}^3 (512), with and without an extra matrix geo '
-        'that is not in the data (cx / ctx excludable, c_fixed / ct not excludable), and with a data geo missing; for '
+        'that is not in the data (cx / ctx excludable, c_fixed / ct not excludable), and with a data geo missing, and with the caller\'s eligibility object already used by ANOTHER data object (panel lacking a geo, other ranking); for '
         'every constructed object EVERY ordered subset of the assignable geos as geo_index and, for 2-geo subsets, '
         'every PAIR of successive geo_index assignments (history of length 2). Oracle = reference panel model: row set, '
         'string IDs, chronological columns, zero fill, non-increasing means, shares, assignable set, ValueError exactly '
         'when a non-excludable matrix geo is missing from the data, aggregates over every index subset equal reference '
         'sums in the CURRENT index order, index-based assignments equal the reference partition by position, caller\'s '
-        'frame unmodified. Non-trivial = object constructed and >= 1 geo-index order checked, or an expected rejection; '
+        'frame and eligibility object unmodified. Non-trivial = object constructed and >= 1 geo-index order checked, or an expected rejection; '
         'distinct = distinct case.')
 ASSUMPTIONS = ['no duplicate (geo, date) rows in the input (their aggregation is not part of the statement)',
                'cell values are small distinct integers']
@@ -65,6 +65,8 @@ def cases(tier, seed):
             if extra is not None:
                 e[EXTRA] = extra
             out.append({'G': 3, 'T': 2, 'mask': [1] * 6, 'ids': 'int', 'order': 'id', 'elig': e, 'vals': 'distinct'})
+            if extra is None:
+                out.append(dict(out[-1], ge_used_before=True))
         # geo 1 absent from the data
         e = {str(g): r for g, r in enumerate(rows) if r is not None}
         out.append({'G': 3, 'T': 2, 'mask': [1, 1, 0, 0, 1, 0], 'ids': 'str', 'order': 'rev', 'elig': e, 'vals': 'distinct'})
@@ -106,6 +108,18 @@ def run_case(case):
         ge = GeoEligibility(pd.DataFrame({'geo': list(rowd), 'control': [r[0] for r in rowd.values()],
                                           'treatment': [r[1] for r in rowd.values()], 'exclude': [r[2] for r in rowd.values()]}))
     expect_err = rowd is not None and any(r[2] == 0 and g not in geos for g, r in rowd.items())
+    ge_before = ge.data.copy(deep=True) if ge is not None else None
+    if ge is not None and case.get('ge_used_before'):
+        # NON-INITIAL state of the caller's eligibility object: it has already served ANOTHER data object built from a
+        # panel that lacks geo 0 and ranks the geos differently
+        rows0 = [(DATES[t], g, float(40 - 10 * g + t)) for g in range(1, 3) for t in range(2)]
+        df0 = pd.DataFrame({'date': pd.to_datetime([r[0] for r in rows0]), 'geo': [r[1] for r in rows0], 'resp': [r[2] for r in rows0]})
+        try:
+            d0 = TBRMMData(df0, 'resp', ge)
+            d0.geo_index = sorted(d0.assignable)
+            d0.geo_assignments
+        except ValueError:
+            pass
     try:
         d = TBRMMData(df, 'resp', ge)
     except ValueError as e:
@@ -127,6 +141,12 @@ def run_case(case):
         viol.append({'key': 'C15:' + key, 'msg': msg})
     if not df.equals(before):
         add('input-frame-modified', 'the caller\'s frame changed')
+        df = before.copy(deep=True)
+    if ge is not None and not ge.data.equals(ge_before):
+        add('eligibility-object-modified', 'the caller\'s GeoEligibility object was modified (rows %s -> %s)' % (
+            sorted(ge_before.index), sorted(ge.data.index)))
+    # caller-side action: the caller goes on using HIS frame (overwrites the response column); the data object must not follow
+    df['resp'] = -1.0
     idx = list(d.df.index)
     if not all(isinstance(g, str) for g in idx):
         add('ids-not-strings', 'row labels %r (types %s)' % (idx, sorted({type(g).__name__ for g in idx})))
